@@ -157,6 +157,14 @@ func (p c04) Run(w *mon.Worker, idx int) mon.Result {
 	if b.K != ref.Map {
 		b = c04Map(r, 2)
 	}
+	switch r.IntN(12) {
+	case 0: // an empty left operand (nothing to copy is still something not to write into)
+		a = &ref.V{K: ref.Map, M: []ref.KV{}}
+	case 1:
+		a = ref.NullV()
+	case 2:
+		b = &ref.V{K: ref.Map, M: []ref.KV{}}
+	}
 	fl := ref.MergeFlags{Append: r.IntN(3) == 0, Deep: r.IntN(3) == 0, Existing: r.IntN(4) == 0, NewOnly: r.IntN(4) == 0}
 	fam := []string{"merge", "merge", "merge", "laws", "immut", "fold"}[idx%6]
 	res := mon.Result{Tags: []string{"family:" + fam, "flags:" + fl.String()}}
@@ -164,7 +172,7 @@ func (p c04) Run(w *mon.Worker, idx int) mon.Result {
 	cs := map[string]any{"a": a.JSON(), "b": b.JSON(), "flags": fl.String(), "family": fam}
 	res.Case = cs
 	res.Sig = fmt.Sprintf("%s|%s|%x|%x", fam, fl.String(), a.ShapeHash(), b.ShapeHash())
-	shared := false
+	shared := len(a.M) == 0 || len(b.M) == 0
 	for _, kv := range b.M {
 		if _, ok := a.Get(kv.K); ok {
 			shared = true
@@ -213,6 +221,9 @@ func (p c04) Run(w *mon.Worker, idx int) mon.Result {
 		return res
 
 	case "laws":
+		if a.K != ref.Map {
+			return skip("laws are stated for maps")
+		}
 		for _, c := range []struct{ expr, name string }{
 			{".a * {}", "a * {} == a"},
 			{"{} * .a", "{} * a == a"},
